@@ -9,15 +9,15 @@ U64 = (1 << 64) - 1
 HEADER = ('From Coq Require Import List NArith Bool.\nFrom FB Require Import Model.Inodes.\n'
           'Import ListNotations.\nLocal Open Scope N_scope.\n')
 
-def client_ledger(recs):
+def client_ledger(recs, ifh=0):
     """The property predicate evaluated on the implementation's observations alone: the client's
     ledger (entries received minus counts forgotten, never below zero, root exempt) against the
     server's lookup counts (hook), getattr EBADF-or-not on every number ever issued, the number of
     live inode objects, and the inode-number <-> host-identity relation.
     -> (index of first failing step, label, detail) or None"""
-    return ledger_run(recs)[0]
+    return ledger_run(recs, ifh)[0]
 
-def ledger_run(recs):
+def ledger_run(recs, ifh=0):
     """-> ((step, label, detail) | None, final ledger)"""
     led = {1: 2}
     num_of = {}; host_of = {}
@@ -26,7 +26,9 @@ def ledger_run(recs):
         if n == 1: return
         led[n] = led.get(n, 0) - min(c, led.get(n, 0))
     def bind(n, h, k):
-        key = (h['ino'], h['dev'])
+        # the host identity of a file: with file handles the handle (it carries the generation: the host may give a
+        # recycled inode number to a new file while the old one is still referenced), else (ino, dev)
+        key = (h['ino'], h['dev'], h['fh'] if ifh else '')
         if key in num_of and num_of[key] != n:
             return (k, 'number', 'host file %s got number %d, had %d before' % (key, n, num_of[key]))
         if n in host_of and host_of[n] != key:
@@ -119,7 +121,27 @@ def run_check(tier, seed):
             'lookup 6 1 a', 'forget 6 18446744073709551615', 'lookup 7 4 c', 'unlink 1 a', 'rename 1 b 4 zz', 'lookup 8 4 zz',
             'opendir 0 1', 'readdirplus 1 0 4096 0 1', 'readdir 1 0 4096 0 100', 'readdirplus 1 0 4096 0 100', 'releasedir 1 0',
             'forget 0 3', 'bforget 7:1 8:1 7:9', 'lookup 9 4 c', 'create 10 1 0 p 0']})
+    # host inode-number recycling: the client keeps a reference to a file that is unlinked; the host gives its inode
+    # number to a new file (ext4 does when no descriptor pins the inode: handle modes); the new file must get its own
+    # number and survive the forget of the old one.  Four shapes of the old file; fd mode as control (no recycling).
+    n_random = len(cases)
+    for mode in ((1, 0), (1, 1), (0, 0)):
+        sl = 1 if mode[0] else 0
+        cases.append({'mode': mode, 'no_open': 0, 'no_opendir': 0, 'recycle': True, 'lines': [
+            'mknod 1 0 rfa reg', 'mknod 2 0 rfb reg', 'lookup 3 0 rfb', 'mknod 4 0 rfc reg', 'link 5 4 0 rfc2', 'mkdir 6 0 rfd',
+            'recycle 1 0 rfa ga file %d' % sl, 'lookup 10 0 ga', 'forget 1 1', 'lookup 11 0 ga',
+            'unlink 0 rfb', 'recycle 2 0 rfb gb file 0', 'lookup 12 0 gb', 'forget 2 2', 'lookup 13 0 gb',
+            'recycle 4 0 rfc,rfc2 gc file 0', 'lookup 14 0 gc', 'forget 4 2', 'lookup 15 0 gc',
+            'recycle 6 0 rfd gd dir 0', 'lookup 16 0 gd', 'forget 6 1', 'lookup 17 0 gd', 'bforget 10:9 12:9 14:9 16:9']})
     res = run_cases(bindir, cases, 'c08')
+    rec_stats = {}
+    for c, (rc, recs, out) in zip(cases, res):
+        if c.get('recycle'):
+            rs = [r for r in recs if r.get('op') == 'recycle']
+            rec_stats['%d%d' % c['mode']] = {'scenarios': len(rs), 'inode_number_recycled': sum(1 for r in rs if r['found'])}
+    ev.cov['inode_number_recycling'] = rec_stats
+    if not any(v['inode_number_recycled'] for k, v in rec_stats.items() if k[0] == '1'):
+        ev.cov['inode_number_recycling']['note'] = 'precondition not met: the host file system did not hand a freed inode number out again'
     evals = 0; shapes = set(); samples = []; exprs = []; idx = []
     pred_fail = {}
     for ci, (c, (rc, recs, out)) in enumerate(zip(cases, res)):
@@ -132,12 +154,13 @@ def run_check(tier, seed):
         for r in recs[1:]:
             if r['op'] not in ('rename', 'unlink', 'rmdir', 'use', 'open', 'opendir', 'release', 'releasedir'):
                 shapes.add((c['mode'], r['op'], r['res'] == 0, len(r.get('ents', [])) > 0))
-        bad = client_ledger(recs)
+        bad = client_ledger(recs, c['mode'][0])
         if bad:
             k, label, detail = bad
             r = recs[1 + k]
             sig = {'op': r['op'], 'check': label}
             if r['op'] == 'create': sig.update(existed=bool(r['existed']), failed=r['res'] != 0)
+            if any(x['op'] == 'recycle' and x.get('found') for x in recs[1:2 + k]): sig.update(recycled=True, ifh=c['mode'][0], uhi=c['mode'][1])
             findings.append({'what': 'after request %d (%s): %s' % (k, c['lines'][k], detail), 'sig': sig,
                              'input': {'mode': c['mode'], 'no_open': c['no_open'], 'no_opendir': c['no_opendir'], 'lines': c['lines'][:k + 1]},
                              'observed': r})
